@@ -22,6 +22,7 @@ TECHNIQUE = TECH + " (QF_NRA with instantiated axioms for the transcendental fun
 JOBS = [
     Job("transforms", "C11.cpp", ["HLO=0", "HHI=1"], budget_s=200, replay_tol=1e-5, spurious_possible=True, desc="round trip, strict monotonicity, range, pass-through; first/second derivative of each map vs the derivative of its arithmetic"),
     Job("wrapper-1", "C11.cpp", ["HLO=2", "HHI=3", "NPAR=1"], fix="nparams=1", budget_s=300, replay_tol=1e-5, spurious_possible=True, desc="one-parameter functions, all nine shapes: values kept at wrapping, evaluation at the back-transformed point, feasibility, chain rule"),
-    Job("wrapper-2", "C11.cpp", ["HLO=3", "HHI=3", "NPAR=2"], fix="nparams=2 q.shape=1", budget_s=400, replay_tol=1e-5, tiers=("quick",), spurious_possible=True, desc="two-parameter functions, first parameter in every shape, second closed-interval constrained: chain rule incl. the cross derivative"),
-    Job("wrapper-2-all", "C11.cpp", ["HLO=2", "HHI=3", "NPAR=2"], fix="nparams=2", budget_s=3000, replay_tol=1e-5, tiers=("thorough",), spurious_possible=True, desc="two-parameter functions, all 81 shape combinations"),
+    Job("wrapper-2", "C11.cpp", ["HLO=3", "HHI=3", "NPAR=2"], fix="nparams=2 q.shape=1", budget_s=400, replay_tol=1e-5, spurious_possible=True, desc="two-parameter functions, first parameter in every shape, second closed-interval constrained: chain rule incl. the cross derivative"),
+    Job("wrapper-2-q4", "C11.cpp", ["HLO=2", "HHI=3", "NPAR=2"], fix="nparams=2 q.shape=4", budget_s=1500, replay_tol=1e-5, tiers=("thorough",), spurious_possible=True, desc="two-parameter functions, first parameter in every shape, second parameter in shape 4 (all 81 combinations measured: 47 min on 16 cores, kept out of the registered tier)"),
+    Job("wrapper-2-q8", "C11.cpp", ["HLO=2", "HHI=3", "NPAR=2"], fix="nparams=2 q.shape=8", budget_s=1500, replay_tol=1e-5, tiers=("thorough",), spurious_possible=True, desc="the same with the second parameter in shape 8"),
 ]
